@@ -401,7 +401,7 @@ func RunCheck(id, tier, repo string, seed int, updateBaseline, quiet, writeEvide
 	// anchors: post/inv/typeinv/const/lemma obligations of the baseline must be generated again
 	var anchorsMissing []string
 	for n := range baseline {
-		if !generated[n] && (strings.Contains(n, "/post(") || strings.Contains(n, "/inv(") || strings.Contains(n, "/const(") || strings.Contains(n, "/lemma(") || strings.Contains(n, "/typeinv(") || strings.Contains(n, "/applies(") || strings.Contains(n, "/returnsparam(")) {
+		if !generated[n] && (strings.Contains(n, "/post(") || strings.Contains(n, "/inv(") || strings.Contains(n, "/const(") || strings.Contains(n, "/lemma(") || strings.Contains(n, "/typeinv(") || strings.Contains(n, "/applies(") || strings.Contains(n, "/returnsparam(") || strings.Contains(n, "/chaninv(")) {
 			anchorsMissing = append(anchorsMissing, n)
 		}
 	}
